@@ -30,7 +30,9 @@
  *        A token with a leading '2' comes from a second client (sender id 03); the server has
  *        two recipient contexts (ids 02 and 03).
  *        -> per message  <A|R|D|C|E|N|?code>,<last_seq>,<window>,<initial>/<the same three
- *           fields of the second recipient context>
+ *           fields of the second recipient context>[~o<hexpiv>#<hash> | ~r#<hash>]
+ *           the suffix: the server sent a protected datagram; it used a Partial IV of its own
+ *           (~o) or the nonce of the request (~r); hash of the ciphertext
  *           A handler ran; R 4.01 unprotected; D 4.00; C protected reply, handler did not run;
  *           N 4.02, or 4.01 "Security context not found";
  *           E nothing (or an empty ACK) sent
@@ -301,6 +303,55 @@ static size_t cut_payload(uint8_t *dg, size_t n, char kind, int slen) {
   return idx + 1 + (size_t)slen;
 }
 
+/* Which AEAD nonce protected a datagram this node sent in reply (RFC 8613 5.2): its own Partial
+ * IV when the OSCORE option carries one ("~o<piv>"), else the nonce of the request it answers
+ * ("~r").  "#<hash>" = FNV-1a of the ciphertext: two different ciphertexts under one nonce are a
+ * nonce reuse.  Writes "" when the datagram is not OSCORE protected. */
+static void nonce_tag(const uint8_t *dg, size_t n, char *out, size_t outn) {
+  size_t vl, idx;
+  uint8_t *ov = find_oscore_opt((uint8_t *)dg, n, &vl);
+  uint32_t h = 0x811c9dc5u;
+  out[0] = 0;
+  if (!ov || n < 4 || dg[1] == 0) return;
+  idx = (size_t)(ov - dg) + vl;
+  for (size_t i = idx; i < n; i++) h = (h ^ dg[i]) * 0x01000193u;
+  if (vl > 0 && (ov[0] & 7)) {
+    uint64_t piv = 0;
+    for (int k = 0; k < (ov[0] & 7); k++) piv = (piv << 8) | ov[1 + k];
+    snprintf(out, outn, "~o%" PRIx64 "#%08x", piv, h);
+  } else {
+    snprintf(out, outn, "~r#%08x", h);
+  }
+}
+
+/* the protected datagrams captured from context ctx since capture index from */
+static void nonce_tags_of_captures(coap_context_t *ctx, int from, char *out, size_t outn) {
+  out[0] = 0;
+  for (int k = from; k < ncap; k++) {
+    char one[48];
+    if (cap_sess[k]->context != ctx) continue;
+    nonce_tag(cap_buf[k], cap_len[k], one, sizeof(one));
+    if (strlen(out) + strlen(one) + 1 < outn) strcat(out, one);
+  }
+}
+
+/* table for the drivers that check on their own (rpe): ident -> ciphertext hash */
+#define MAXNONCE 512
+static char nonce_ident[MAXNONCE][40];
+static uint32_t nonce_hash[MAXNONCE];
+static int n_nonce, nonce_dup;
+static void nonce_note(const char *ident, uint32_t h) {
+  for (int k = 0; k < n_nonce; k++)
+    if (!strcmp(nonce_ident[k], ident)) {
+      if (nonce_hash[k] != h) nonce_dup++;
+      return;
+    }
+  if (n_nonce < MAXNONCE) {
+    snprintf(nonce_ident[n_nonce], sizeof(nonce_ident[0]), "%s", ident);
+    nonce_hash[n_nonce++] = h;
+  }
+}
+
 static int seq_len(uint64_t v) {
   int n = 1;
   while (v >>= 8) n++;
@@ -461,15 +512,29 @@ deliver:
     coap_handle_dgram(sctx, ssess, dg, n);
     coap_lock_unlock(sctx);
     fail_alloc_at = 0;
+    /* acknowledge the server's Confirmable messages (separate responses), else NSTART holds
+     * its later ones back */
+    for (int k = 0, nc = ncap; k < nc; k++)
+      if (cap_sess[k]->context == sctx && cap_len[k] >= 4 && ((cap_buf[k][0] >> 4) & 3) == 0) {
+        uint8_t ack[4] = { 0x60, 0x00, cap_buf[k][2], cap_buf[k][3] };
+        coap_lock_lock(sctx, goto done);
+        coap_handle_dgram(sctx, ssess, ack, 4);
+        coap_lock_unlock(sctx);
+      }
     classify(verdict, sizeof(verdict), before);
     if (kind == 'A') strcpy(verdict, handler_calls > before ? "A" : "*");
     /* no payload / marker only: dropped before any security context is looked at, no reply */
     if ((kind == 'M' || (kind == 'S' && tok_len_suffix(mt, 1) == 0)) && !strcmp(verdict, "E"))
       strcpy(verdict, "N");
     if (i > 5) putchar(' ');
-    printf("%s,%" PRIx64 ",%" PRIx64 ",%d/%" PRIx64 ",%" PRIx64 ",%d", verdict, rcp->last_seq,
-           rcp->sliding_window, rcp->initial_state, rcp2->last_seq, rcp2->sliding_window,
-           rcp2->initial_state);
+    {
+      char tags[128];
+      nonce_tags_of_captures(sctx, 0, tags, sizeof(tags));
+      if (kind == 'A') tags[0] = 0;       /* whether a reply gets out depends on k */
+      printf("%s,%" PRIx64 ",%" PRIx64 ",%d/%" PRIx64 ",%" PRIx64 ",%d%s", verdict, rcp->last_seq,
+             rcp->sliding_window, rcp->initial_state, rcp2->last_seq, rcp2->sliding_window,
+             rcp2->initial_state, tags);
+    }
   }
   if (vntok == 5) printf("-");
   putchar('\n');
@@ -572,6 +637,19 @@ static int pump(int record, char tag) {
       coap_lock_lock(sctx, return 0);
       coap_handle_dgram(sctx, ssess, dg, n);
       coap_lock_unlock(sctx);
+      /* every protected datagram the server sends: (Sender Key, nonce) must not repeat */
+      for (int k = mark; k < ncap; k++) {
+        char one[48], ident[40];
+        char *hp;
+        if (cap_sess[k]->context != sctx) continue;
+        nonce_tag(cap_buf[k], cap_len[k], one, sizeof(one));
+        if (!one[0]) continue;
+        hp = strchr(one, '#');
+        *hp = 0;
+        if (one[1] == 'o') snprintf(ident, sizeof(ident), "%s", one);
+        else snprintf(ident, sizeof(ident), "~r%" PRIx64, piv);
+        nonce_note(ident, (uint32_t)strtoul(hp + 1, NULL, 16));
+      }
       snprintf(verdict, sizeof(verdict), handler_calls > before ? "A" : "E");
       for (int k = mark; k < ncap && handler_calls == before; k++) {
         size_t v2;
@@ -631,6 +709,7 @@ static void cmd_rpe(void) {
   resp_codes[0] = 0;
   spiv_list[0] = 0;
   spiv_dup = 0;
+  n_nonce = nonce_dup = 0;
   nrec = 0;
   pump_client = &c;
   pump_first = 1;
@@ -689,8 +768,8 @@ static void cmd_rpe(void) {
       }
     }
   }
-  printf("%s| handler=%d responses=%d ok=%d spivdup=%d codes=%s\n", pump_first ? "" : " ",
-         handler_calls, resp_count, resp_205, spiv_dup, resp_codes[0] ? resp_codes : "-");
+  printf("%s| handler=%d responses=%d ok=%d spivdup=%d noncedup=%d codes=%s\n", pump_first ? "" : " ",
+         handler_calls, resp_count, resp_205, spiv_dup, nonce_dup, resp_codes[0] ? resp_codes : "-");
 done:
   client_down(&c);
   server_down();
@@ -805,6 +884,7 @@ static void cmd_rpx(void) {
     size_t n = 0;
     char verdict[16] = "-";
     int before = handler_calls, rbefore = a_resp_calls, prev = -1, is_resp = 0;
+    char qtags[64] = "";
     for (int j = 4; j < i && j - 4 < MAXMSG; j++)
       if (!strcmp(vtok[j], vtok[i]) && msg_len[j - 4] && kind == 'N') { prev = j - 4; break; }
     if (i - 4 < MAXMSG) msg_len[i - 4] = 0;
@@ -853,6 +933,7 @@ static void cmd_rpx(void) {
       memcpy(dg, cap_buf[0], n);
       tok_len = dg[0] & 0x0f;
       memcpy(tok, dg + 4, tok_len);
+      nonce_tags_of_captures(a.ctx, 0, qtags, sizeof(qtags));   /* A's request: its own Partial IV */
       ncap = 0;
       bsrv->p_osc_ctx->sender_context->seq = seq;
       coap_lock_lock(bsrv, goto done);
@@ -921,8 +1002,14 @@ static void cmd_rpx(void) {
       coap_lock_unlock(a.ctx);
       snprintf(verdict, sizeof(verdict), a_resp_calls > rbefore ? "A" : "X");
     }
-    printf("%s%s,%" PRIx64 ",%" PRIx64 ",%d", i > 4 ? " " : "", verdict, rc->last_seq,
-           rc->sliding_window, rc->initial_state);
+    {
+      char tags[128];
+      tags[0] = 0;
+      if (!is_resp) nonce_tags_of_captures(a.ctx, 0, tags, sizeof(tags));
+      else if (kind == 'q') snprintf(tags, sizeof(tags), "%s", qtags);
+      printf("%s%s,%" PRIx64 ",%" PRIx64 ",%d%s", i > 4 ? " " : "", verdict, rc->last_seq,
+             rc->sliding_window, rc->initial_state, tags);
+    }
   }
   if (vntok == 4) printf("-");
   putchar('\n');
